@@ -45,7 +45,7 @@ var prop = hx.Prop[Case]{
 		"snapshot must visit and list every mailbox, show every untouched message with full content, show the target's mailbox exactly " +
 		"in its before or its after state, and accept a new delivery; each crash state is one evaluation; non-trivial = the crash point " +
 		"lies strictly between two mutations of the operation or inside a write",
-	Quick: 40, Thorough: 400,
+	Quick: 60, Thorough: 400,
 	Gen: func(t *rapid.T) Case {
 		c := Case{Cap: rapid.SampledFrom([]int{0, 0, 2, 3}).Draw(t, "cap"), Boxes: hx.BoxesGen(2, 4).Draw(t, "boxes")}
 		og := hx.OpGen(prefixKinds)
@@ -63,6 +63,12 @@ var prop = hx.Prop[Case]{
 		c.Target = Target{K: rapid.SampledFrom([]string{"add", "add", "seen", "remove", "remove", "purge"}).Draw(t, "tk"),
 			Box: rapid.IntRange(0, 7).Draw(t, "tbox"), N: rapid.IntRange(0, 20).Draw(t, "tn"), Big: rapid.Bool().Draw(t, "big")}
 		c.Masks = rapid.SliceOfN(rapid.Uint16(), 3, 3).Draw(t, "masks")
+		if c.Cap > 0 && c.Target.K == "add" && rapid.IntRange(0, 2).Draw(t, "fill") > 0 {
+			// fill the target mailbox to its cap so that the delivery has to evict
+			for i := 0; i < c.Cap; i++ {
+				c.Prefix = append(c.Prefix, hx.Op{K: "add", Box: c.Target.Box, Msg: mg.Draw(t, "fillmsg")})
+			}
+		}
 		return c
 	},
 	Run: run,
